@@ -6,6 +6,7 @@
 
 mod c01b;
 mod c04;
+mod c05x;
 mod c06;
 mod c07;
 mod c08;
@@ -105,7 +106,7 @@ fn main() {
             return;
         }
         "c10-debug" => {
-            c10::debug(p.get("seq").unwrap_or(""), p.seed);
+            c10::debug(p.get("seq").unwrap_or(""), p.get("run-seed").and_then(|x| x.parse().ok()).unwrap_or(p.seed), p.get("binds").map(|x| x == "1"), p.get("rwnd").and_then(|x| x.parse().ok()).unwrap_or(4), p.get("overrun") == Some("1"));
             return;
         }
         "rerun" => {
